@@ -9,6 +9,7 @@
 import NPModel.Refine.SortRows
 import NPModel.Refine.Samples
 import NPModel.Refine.Repacked
+import NPModel.Refine.SortNested
 namespace NP.C11
 open NP
 variable {α β : Type}
@@ -83,5 +84,65 @@ theorem sorted_rows_repacked (F : NFrame α) (nest : String) (sorted : List (Str
       col.rows = repackedRows sorted lens ∧ col.rows.length = F.index.length := by
   obtain ⟨col, h1, h2⟩ := setFilteredFlatDf_rows F nest sorted lens hn hcols hne
   exact ⟨col, h1, h2, by rw [h2]; simp [repackedRows, hn]⟩
+
+/-! ### end to end on the implementation model -/
+
+/-- **The comparator of `sort_values` is a total preorder** whenever the values carry a strict
+    weak order (`<` on numbers, strings, timestamps): ordinal first, then the keys lexicographically,
+    each with its own direction, nulls placed by `na_position` independently of the direction.
+    Hence the stable merge sort really returns a sorted permutation. -/
+theorem comparator_is_total_preorder [Inhabited α] (lt : α → α → Bool) (isNull : α → Bool) (naFirst : Bool)
+    (h : StrictWeak lt) (ords : List Label) (kcols : List (Bool × List α)) :
+    (∀ a b, (sortLe lt isNull naFirst ords kcols a b || sortLe lt isNull naFirst ords kcols b a) = true) ∧
+    (∀ a b c, sortLe lt isNull naFirst ords kcols a b = true → sortLe lt isNull naFirst ords kcols b c = true →
+      sortLe lt isNull naFirst ords kcols a c = true) :=
+  ⟨sortLe_total lt isNull naFirst h ords kcols, sortLe_trans lt isNull naFirst h ords kcols⟩
+
+/-- **`sort_values` on a nested layer, end to end** (`NP.NFrame.sortNested`, the model checked
+    against the code).  For every frame whose nested column `nest` is stored cleanly (any chunking
+    and offsets), every list of keys naming fields of that column, any directions and null
+    placement, and any strict weak order on the values: the call succeeds and replaces only that
+    column; the number of rows is unchanged; and row `i` of the result is missing when row `i` had
+    no records, and otherwise is — for EVERY field at once — the old lists of row `i` read through
+    ONE permutation `σ` of `0..len-1`: whole records move together, none is lost, duplicated or
+    taken from another row; and `σ` is ordered by the requested keys, directions and null
+    placement (`lexLe` over the key columns of the row's records). -/
+theorem sort_nested_permutes_rows [Inhabited α] (lt : α → α → Bool) (isNull : α → Bool) (hlt : StrictWeak lt)
+    (F : NFrame α) (nest : String) (c : PCol α) (hc : F.nest? nest = .ok c) (hclean : c.Clean)
+    (hch : c.chunks ≠ []) (hidx : F.index.length = c.len) (keys : List (String × Bool))
+    (hkeys : ∀ k ∈ keys, c.ty.any (·.1 == k.1) = true) (naFirst : Bool) :
+    let lens := c.rows.map Row.len
+    let kcols := sortKeyCols (ordFlat (colLists c) lens) keys
+    ∃ col : PCol α, F.sortNested lt isNull nest keys naFirst = .ok (F.setCol nest (.nest col)) ∧
+      col.rows.length = F.index.length ∧
+      ∀ i, i < F.index.length → ∃ σ : List Nat, σ.Perm (List.range (lens.getD i 0)) ∧
+        col.rows.getD i none = (if lens.getD i 0 = 0 then none else
+          some ((colLists c).map fun f => (f.1, σ.map fun q => (f.2.2.getD i []).getD q default))) ∧
+        σ.Pairwise (fun q r => lexLe lt isNull naFirst
+          (sortKeysAt kcols (rowStart lens i + q) (rowStart lens i + r)) = true) :=
+  sortNested_permutes_rows lt isNull hlt F nest c hc hclean hch hidx keys hkeys naFirst
+
+/-- the same in terms of flat positions: the sort permutation cut into the rows' extents -/
+theorem sort_nested_blocks [Inhabited α] (lt : α → α → Bool) (isNull : α → Bool) (hlt : StrictWeak lt)
+    (F : NFrame α) (nest : String) (c : PCol α) (hc : F.nest? nest = .ok c) (hclean : c.Clean)
+    (hch : c.chunks ≠ []) (hidx : F.index.length = c.len) (keys : List (String × Bool))
+    (hkeys : ∀ k ∈ keys, c.ty.any (·.1 == k.1) = true) (naFirst : Bool) :
+    let lens := c.rows.map Row.len
+    let flat := ordFlat (colLists c) lens
+    let kcols := sortKeyCols flat keys
+    ∃ (blocks : List (List Nat)) (col : PCol α),
+      F.sortNested lt isNull nest keys naFirst = .ok (F.setCol nest (.nest col)) ∧
+      col.rows = repackedRows ((colLists c).map fun f => (f.1, f.2.1,
+        blocks.map fun b => b.map fun p => f.2.2.flatten.getD p default)) lens ∧
+      blocks.map List.length = lens ∧
+      (∀ i, i < lens.length → (blocks.getD i []).Perm
+        ((List.range flat.index.length).filter fun p => flat.index.getD p (.int 0) == Label.int (i : Int))) ∧
+      (∀ b ∈ blocks, b.Pairwise fun p q => lexLe lt isNull naFirst (sortKeysAt kcols p q) = true) :=
+  sortNested_rows lt isNull hlt F nest c hc hclean hch hidx keys hkeys naFirst
+
+/-- non-vacuity: `<` on the naturals is a strict weak order -/
+example : StrictWeak (fun (a b : Nat) => decide (a < b)) :=
+  ⟨fun a b h => by simp only [decide_eq_true_eq, decide_eq_false_iff_not] at *; omega,
+   fun a b c h1 h2 => by simp only [decide_eq_false_iff_not] at *; omega⟩
 
 end NP.C11
